@@ -47,13 +47,25 @@ CLASSES = [
 MARK = b'TRAILING-MARKER-'
 
 
+_RACE = [None]
+
+
+def _race():
+    from . import _threads as T
+    if _RACE[0] is None:
+        _RACE[0] = T.RaceFamily(TBASES)
+    return _RACE[0]
+
+
 def plan(tier):
     if tier == 'quick':
         return [('headers', 65536), ('seeded', 6000), ('busy', 1500),
                 ('threaded_sweep', len(TBASES) * TSLOT * 2),
+                ('threaded_race', _race().size(tier)),
                 ('threaded_random', 300)]
     return [('headers', 65536), ('seeded', 300000), ('busy', 60000),
             ('threaded_sweep', len(TBASES) * TSLOT * 2),
+            ('threaded_race', _race().size(tier)),
             ('threaded_random', 30000)]
 
 
@@ -80,10 +92,14 @@ def _tinfo(b):
     return _TINFO[b]
 
 
-def _threaded_case(family, i, rng):
+def _threaded_case(family, i, rng, tier='quick'):
     import copy
     from . import _threads as T
-    if family == 'threaded_sweep':
+    if family == 'threaded_race':
+        # sets of pre-emption sites among the points where the threads touch
+        # the same field (see _threads.race_candidates)
+        case = _race().case(i, tier)
+    elif family == 'threaded_sweep':
         senders_first = i >= len(TBASES) * TSLOT
         i %= len(TBASES) * TSLOT
         b = i // TSLOT
@@ -219,7 +235,7 @@ def header_frame(b1, b2):
 
 def make_case(family, i, rng, tier):
     if family.startswith('threaded'):
-        return _threaded_case(family, i, rng)
+        return _threaded_case(family, i, rng, tier)
     if family == 'headers':
         return {'header': [i >> 8, i & 255], 'seg': ['one', 'cuts'][i % 2],
                 'cut_seed': i, 'ncuts': 3}
